@@ -1840,7 +1840,7 @@ class Gen(object):
             kinds += ['update_back', 'update_back', 'update_back', 'update_back_ok', 'update_back_pos', 'neg_mark', 'neg_mark', 'pf_sub_back', 'pf_sub_neg',
                       'pf_wd_back', 'pf_wd_neg', 'pf_wd_over', 'pf_txn_back', 'pf_mark_neg', 'pf_mark_back',
                       'pf_txn_behind_pos', 'pf_txn_behind_pos', 'pf_mark_behind_pos', 'pf_mark_repeat', 'pf_mark_ahead',
-                      'pf_mark_ahead', 'pf_sub_ahead', 'pf_sub_ahead']
+                      'pf_mark_ahead', 'pf_sub_ahead', 'pf_sub_ahead', 'exec_back']      # exec_back ends the case (composite request)
         k = rng.choice(kinds)
         amt = rand_amount(rng) + 0.01
         over = lambda x: float(max(x, 0.0)) * rng.choice([1.0, 1.0, 1.0000001, 1.5, 10.0]) + rng.choice([0.001, 0.004, 0.0098, 0.01, 1.0, 1e6])  # noqa
@@ -1871,7 +1871,7 @@ class Gen(object):
         if k == 'new_broker':
             return rng.choice([['new_broker', 'XYZ', 0.0], ['new_broker', 'USD', -amt]])
         if k == 'order_unknown':
-            return ['order', 'nope', rng.choice(sc.cfg['assets']), self.qty(), self.oid()]
+            return ['order', 'nope', rng.choice(sc.cfg['assets']), rng.choice([self.qty(), self.qty(), 0]), self.oid()]
         # ---- faults that need state -------------------------------------
         clocks = {p: b.portfolios[p].current_dt for p in pids}
         latest = max(clocks.values())
